@@ -66,9 +66,10 @@ func newB(parent *bscope, isFunc bool) *bscope {
 }
 
 type bgen struct {
-	r      *Rng
-	budget int
-	sloppy bool // a classic script: with is allowed, function declarations only at function level
+	r        *Rng
+	budget   int
+	sloppy   bool // a classic script: with is allowed, function declarations only at function level
+	withVars int
 }
 
 func (g *bgen) nm() string { return bPool[g.r.Intn(len(bPool))] }
@@ -121,6 +122,13 @@ func (g *bgen) stmt(sc *bscope, depth int) *bstmt {
 			ws.inWith = true
 			return &bstmt{kind: "with", body: g.stmts(ws, depth+1, g.r.Range(1, 3))}
 		case 0, 1:
+			if sc.inWith {
+				// a var in a with body whose name the function declares elsewhere too: the real
+				// hoistSymbols loses the pin when it is merged into an already merged symbol
+				// (recorded finding); here only fresh names are declared inside with
+				g.withVars++
+				n = fmt.Sprintf("w%d", g.withVars)
+			}
 			if n == "arguments" || !sc.canVar(n) {
 				continue
 			}
@@ -158,7 +166,7 @@ func (g *bgen) stmt(sc *bscope, depth int) *bstmt {
 			var body2 []*bstmt
 			for k := g.r.Range(1, 3); k > 0 && g.budget > 0; k-- {
 				g.budget--
-				if p != "" && g.r.Chance(25) {
+				if p != "" && !sc.inWith && g.r.Chance(25) {
 					// var e inside catch (e): allowed, merges
 					for c := sc; c != nil; c = c.parent {
 						c.vars[p] = true
